@@ -22,7 +22,7 @@ INFO = {
                    "Merkle-path shape check (equal vector lengths, binary direction values) guards proof_values_from_witness and "
                    "inputs_for_witness_calculation; a position outside the tree is propagated as Err. R12-3: every success path of a "
                    "proving entry point must pass through a check that the witness satisfies the circuit or a verification of the "
-                   "produced proof before writing output.",
+                   "produced proof before writing output. R12-4 whole-message writes: the proving and witness-export entry points emit output only through write_all / serialize_compressed, never through Write::write whose count could be short.",
     "not_decided": "which requests the circuit can satisfy (circuit semantics: e.g. message_id or limit beyond the circuit's 16-bit range); "
                    "panics inside arkworks' prover",
     "assumptions": ["in-memory lengths are below 2^48, so len*32 + small does not overflow usize", "the instance's graph and key were accepted at construction (resource class)"],
@@ -157,6 +157,29 @@ def check_gate(ctx, fb, cfg):
             ctx.ok("R12-3", inst, "every success path passes a satisfiability / self-verification gate", loc(it))
 
 
+PARTIAL_WRITE_RX = r"(std::io|ark_serialize|ark_std::io)::Write::(write|write_vectored)$"
+
+
+def check_whole_writes(ctx, fb, cfg):
+    """R12-4: the message is written completely or the call fails: the proving and witness-export entry points emit their output only
+    through write_all / serialize_compressed; `Write::write` may accept a prefix and return Ok(n), which would turn into Ok with a
+    truncated, unverifiable message"""
+    n = 0
+    for fn, stateful in ENTRIES:
+        it = fb.items.get(fn)
+        if it is None:
+            continue
+        ctx.touch(it)
+        seen, ext, _ = reach(fb, [it.path], stop=lambda nm: bool(re.search(r"^(ark_|std::|core::|alloc::)", nm)))
+        eng = Engine(fb, inline=lambda i: False)
+        direct = [c for p in eng.run(it) for c in p.calls(PARTIAL_WRITE_RX)]
+        bad = sorted(set([nm for nm in ext if re.search(PARTIAL_WRITE_RX, nm)] + [c[1] for c in direct]))
+        ctx.check(not bad, "R12-4", "%s[%s] writes whole messages" % (fn.split("::")[-1], cfg), "output only through write_all / serialize_compressed",
+                  "%s emits output through %s: a writer that accepts only part of the buffer makes the call return Ok with a truncated message" % (fn, bad), loc(it))
+        n += 1
+    return n
+
+
 def run(ctx):
     cfgs = ["default", "stateless"] if ctx.tier == "quick" else ["default", "stateless", "optimal"]
     ctx.prefetch(cfgs + ["fixtures"])
@@ -169,6 +192,7 @@ def run(ctx):
             c13.check_panics(ctx, fb, cfg, fn, rule="R12-1", classify=classify)
             n += 1
         check_gate(ctx, fb, cfg)
+        check_whole_writes(ctx, fb, cfg)
     ctx.floor("proving-entry-points", n, 10)
     check_range_gate(ctx, ctx.fb("default"))
     # position outside the tree: the lookup's failure must be propagated
@@ -187,3 +211,9 @@ def run(ctx):
         c13.check_panics(sub, fx, "fixtures", fn, rule="R12-1")
         fired = any(r.status == "fail" for r in sub.results)
         ctx.fixture("R12-1" + ("" if expect else "-neg"), fired == expect, fn + ("" if expect else " (must be silent: scaled loop index under a quotient guard)"))
+    try:
+        sw = fx.need("zkfix::public::short_write")
+        e9 = Engine(fx, inline=lambda i: False)
+        ctx.fixture("R12-4", any(c for p in e9.run(sw) for c in p.calls(PARTIAL_WRITE_RX)), "zkfix::public::short_write calls Write::write and drops the count")
+    except MissingAnchor as e:
+        ctx.fixture("R12-4", False, "fixture missing: %s" % e)
